@@ -81,7 +81,7 @@ def base_result(pos):
 
 
 def gen_clean(rng):
-    n = rng.choice([0, 1, 2, 3, 5, 8, 13, 21, 40])
+    n = rng.choice([0, 1, 2, 3, 5, 8, 13, 21, 40, 40, 200, 1000, 5000] if rng.random() < 0.2 else [0, 1, 2, 3, 5, 8, 13, 21, 40])
     s = "".join(rng.choice(CLEAN) for _ in range(n))
     if rng.random() < 0.35:
         s += rng.choice(WORDS)
